@@ -2700,7 +2700,9 @@ func parseChecksByNodeMeta(
 			results = append(results, healthCheck)
 		}
 	}
-	return idx, results, nil
+	// Which checks pass the filter depends on the nodes' metadata, so a
+	// change to a node is a change to this result.
+	return lib.MaxUint64(idx, catalogNodesMaxIndex(tx, entMeta, peerName)), results, nil
 }
 
 // DeleteCheck is used to delete a health check registration.
